@@ -48,7 +48,10 @@ RoundTrip == (E.kind # "raise" /\ R.dump.kind = "ok") => (R.rt.kind = "ok" /\ Eq
 LoadsEmptyIsNone == R.loadsempty = "none"
 
 Flag(name) == PrintT(<<IF R.judged THEN "PROPFAIL" ELSE "DRIFT", i, name>>)
+\* keys of several types inside the parameters / result / fault data do not keep a message from being emitted
+MixedKeysOK == R.mixed \in {"ok", "na"}
 Monitor == /\ DumpOK \/ Flag("dump:" \o E.kind)
+           /\ MixedKeysOK \/ Flag("dumps:mixedkeys")
            /\ DumpsOK \/ Flag("dumps:" \o E.kind)
            /\ RoundTrip \/ Flag("LoadsDumpsRoundTrip")
            /\ LoadsEmptyIsNone \/ Flag("LoadsEmptyIsNone")
